@@ -3,6 +3,7 @@
 Recipe = a vt.progen program recipe plus
     "kind":  "prog"
     "pipes": [[pass name, ...], ...]    pipelines (1..3 passes each) to apply, each to a fresh clone of the program
+    "nin":   optional number of input vectors (default 6; the operand tables use 12 boundary inputs)
     "flat":  0|1    1: the ops of the (single-block) entry function are hoisted to the top level of the module, its
                     arguments replaced by constants (input vector 0) and its results fed to a `test.op` sink -- the
                     form the xDSL filecheck tests of the constant-folding test passes use (they only look at
@@ -34,7 +35,9 @@ RULE = ("progen func/arith/scf/cf programs over i1,i8,i16,i32,i64,index,f32,f64 
         "in load; {store same/other cell | call | scf.if/for with a store | nothing}; load of the same cell, "
         "argument-free (fully constant, foldable) programs, and 'flat' modules (ops at module top level + test.op sink, the form "
         "the constant-folding test passes operate on); plus a deterministic fold table: every arith binary op / "
-        "cmpi+cmpf predicate / cast / select / negf on boundary x boundary constant operands, 24 ops per function. "
+        "cmpi+cmpf predicate / cast / select / negf on boundary x boundary constant operands, 24 ops per function, "
+        "and a partial-operand table: every integer binary op / cmpi predicate on (argument, constant), (constant, "
+        "argument) and (x, x), select with an argument condition, run on 12 boundary inputs. "
         "Each program is cloned and run through canonicalize, constant-fold-interp, test-constant-folding, "
         "test-specialised-constant-folding, cse and one random pipeline of 2-3 of them (fresh Context with all "
         "dialects per pass). Oracle per pipeline stage: the pass must not raise; its output must verify(); "
@@ -638,7 +641,9 @@ def run_case(h, recipe, label):
         prog = dict(recipe, funcs=frs[:-1] + [last])
     module = progen.build(prog)
     fname, fr = progen.entry(prog)
-    vecs = progen.input_vectors(fr, NINPUTS, recipe.get("inputs"), 64)
+    nin = recipe.get("nin")
+    nin = min(max(nin, 1), 24) if isinstance(nin, int) and not isinstance(nin, bool) else NINPUTS
+    vecs = progen.input_vectors(fr, nin, recipe.get("inputs"), 64)
     if flat:
         module = make_flat(module, fname, vecs[0])
         vecs = [()]
@@ -784,15 +789,23 @@ def _table_configs(quick):
 TABLE_CHUNK = 24
 
 
-def table_recipe(tmpl, in_tys, out_ty, tuples, pipes, flat=0):
+def table_recipe(tmpl, in_tys, out_ty, tuples, pipes, flat=0, arg_tys=(), nin=None):
     """A progen recipe of one function: for every operand tuple its constants followed by the op; all results
-    are returned.  Every operand is referenced explicitly (refs are computed from the visible-value lists)."""
+    are returned.  An operand is a constant value, or ("arg", i) for function argument i.  Every operand is
+    referenced explicitly (refs are computed from the visible-value lists)."""
     body = []
     vis: dict = {}          # type -> number of visible values so far
+    argpos = []
+    for t in arg_tys:
+        argpos.append((t, vis.get(t, 0)))
+        vis[t] = vis.get(t, 0) + 1
     where = []              # (type, position among values of that type) of every op result
     for tup in tuples:
         pos = []
         for v, t in zip(tup, in_tys):
+            if isinstance(v, (tuple, list)):
+                pos.append(argpos[v[1]])
+                continue
             body.append({"op": "const", "t": t, "v": v})
             pos.append((t, vis.get(t, 0)))
             vis[t] = vis.get(t, 0) + 1
@@ -807,8 +820,47 @@ def table_recipe(tmpl, in_tys, out_ty, tuples, pipes, flat=0):
             where.append((rt, vis.get(rt, 0)))
             vis[rt] = vis.get(rt, 0) + 1
     ret = [[t, vis[t] - 1 - p] for t, p in where]
-    return {"kind": "prog", "flat": flat, "pipes": [list(p) for p in pipes], "inputs": [0], "ib": 64,
-            "funcs": [{"args": [], "body": body, "ret": ret}]}
+    r = {"kind": "prog", "flat": flat, "pipes": [list(p) for p in pipes], "inputs": [0], "ib": 64,
+         "funcs": [{"args": list(arg_tys), "body": body, "ret": ret}]}
+    if nin:
+        r["nin"] = nin
+        r["inputs"] = [4 * j for j in range(nin * max(len(arg_tys), 1))]     # boundary value j of each type
+    return r
+
+
+def partial_table(h):
+    """One function per (integer op, type): the op applied to the argument x and each boundary constant c, both
+    ways round, and to (x, x); select with an argument condition and constant values.  These are the shapes of
+    the unit / zero / equal-operand / select canonicalization patterns and folders.  12 boundary inputs."""
+    names = [n for v in progen.INT_BIN.values() for n in v]
+    divs = set(progen.INT_BIN["div"])
+    cfgs = []
+    for t in INT_T:
+        d = _int_dom(t, h.quick)
+        w = refsem.int_width(t, 64)
+        for op in names:
+            if op == "addui_extended" and t == "index":
+                continue
+            # a constant zero divisor makes every run UB: nothing could be compared
+            cs = [c for c in d if not (op in divs and c & ((1 << w) - 1) == 0)]
+            tuples = [(("arg", 0), c) for c in cs] + [(c, ("arg", 0)) for c in d] + [(("arg", 0), ("arg", 0))]
+            cfgs.append(({"op": op, "t": t, "safe": 0}, [t, t], t, tuples, [t]))
+        for p in range(10):
+            tuples = [(("arg", 0), c) for c in d] + [(c, ("arg", 0)) for c in d] + [(("arg", 0), ("arg", 0))]
+            cfgs.append(({"op": "cmpi", "t": t, "p": p}, [t, t], "i1", tuples, [t]))
+    for t in INT_T + FLOAT_T:
+        d = (_float_dom(t, h.quick) if _is_f(t) else _int_dom(t, h.quick))[:5]
+        tuples = [(("arg", 0), a, b) for a in d for b in d]
+        if not _is_f(t):
+            tuples += [(("arg", 0), ("arg", 1), c) for c in d] + [(("arg", 0), c, ("arg", 1)) for c in d]
+        tuples += [(("arg", 0), ("arg", 1), ("arg", 1))]
+        cfgs.append(({"op": "select", "t": t}, ["i1", t, t], t, tuples, ["i1", t]))
+    pipes = [["canonicalize"], ["constant-fold-interp"], ["cse", "canonicalize"]]
+    for i, (tmpl, in_tys, out_ty, tuples, arg_tys) in enumerate(cfgs):
+        if i % h.nshards != h.shard:
+            continue
+        run_case(h, table_recipe(tmpl, in_tys, out_ty, tuples, pipes, arg_tys=arg_tys, nin=12), "table_partial")
+        h.count("table_partial_config")
 
 
 def _tuple_defined(tmpl, in_tys, out_ty, tup):
@@ -917,6 +969,7 @@ def replay(h, recipe):
 def checks(h):
     _init()
     fold_table(h)
+    partial_table(h)
     for salt, (name, q, t) in enumerate([("general", 200, 6000), ("const", 140, 4000), ("flat", 70, 2000),
                                          ("flags", 40, 1500), ("memory", 50, 1500)]):
         h.hyp(name, campaign(name), lambda r, name=name: run_case(h, r, name), h.scale(q, t), 1 + salt)
